@@ -4,6 +4,7 @@
 package main
 
 import (
+	"fmt"
 	"os"
 	"strconv"
 	"time"
@@ -31,6 +32,25 @@ func main() {
 	}
 	scen = append(scen, netsim.Scenario{Cfg: netsim.Config{Name: "4x1-lock-split", Powers: []int64{1, 1, 1, 1}, Byz: []int{3}, ByzMenu: true, Driver: "lock-split", TargetHeight: 1, MaxRound: 5, MaxSteps: 500}, Bound: b - 1})
 	scen = append(scen, netsim.Scenario{Cfg: netsim.Config{Name: "4x1-late-polka", Powers: []int64{1, 1, 1, 1}, Byz: []int{3}, ByzMenu: true, Driver: "late-polka", TargetHeight: 1, MaxRound: 6, MaxSteps: 600}, Bound: b - 1})
+	macro := "macro2"
+	if os.Getenv("NETSIM_MACRO") != "" {
+		macro = os.Getenv("NETSIM_MACRO")
+	}
+	if r.Thorough() {
+		macro = "macro3"
+	}
+	scen = append(scen, netsim.Scenario{Cfg: netsim.Config{Name: "4x1-" + macro + "-round-shapes", Powers: []int64{1, 1, 1, 1}, Byz: []int{3}, Driver: macro, TargetHeight: 1, MaxRound: 8, MaxSteps: 1500}, Bound: 0})
+	solo := "solo4"
+	if r.Thorough() {
+		solo = "solo5"
+	}
+	turns := []int{1}
+	if r.Thorough() {
+		turns = []int{1, 2, 3, 4}
+	}
+	for _, turn := range turns {
+		scen = append(scen, netsim.Scenario{Cfg: netsim.Config{Name: fmt.Sprintf("solo-turn%d-%s-round-shapes", turn, solo), Powers: []int64{1, 1, 1, 1}, SoloTurn: turn, Driver: solo, TargetHeight: 1, MaxRound: 8, MaxSteps: 1500}, Bound: 0})
+	}
 	dl := 10 * time.Minute
 	if r.Thorough() {
 		dl = 30 * time.Minute
